@@ -87,7 +87,9 @@ def _mean_dev(m, m_ref, Pdiag, noise, tol):
     m, m_ref = np.asarray(m, float), np.asarray(m_ref, float)
     if not np.all(np.isfinite(m)):
         return float("inf")
-    den = tol * (np.abs(m_ref) + np.sqrt(np.maximum(Pdiag, 0.0))) + np.asarray(noise, float) + 1e-300
+    # absolute floor: a coefficient that is exactly 0 with variance exactly 0 (exact initial data) differs from a
+    # reference value of 3e-17 only by the rounding of the other coefficients it was computed from
+    den = tol * (np.abs(m_ref) + np.sqrt(np.maximum(Pdiag, 0.0))) + np.asarray(noise, float) + 2.0**-46 * float(np.max(np.abs(m_ref)) if m_ref.size else 0.0) + 1e-300
     return float(np.max(np.abs(m - m_ref) / den))
 
 
